@@ -50,6 +50,9 @@ def units(ctx):
     # right/suffix row)
     us += [contract_unit(c, world_setup=lexer.setup_precedence)
            for c in lexer.precedence_contracts()]
+    from contracts import evalglue as _eg
+    from vlib.pyvc.unit import contract_unit as _cu
+    us += [_cu(c, world_setup=_eg.setup_nodes) for c in _eg.node_contracts()]
     us.append(bounded_unit(
         'bounded:c02-tables', 'c02_tables.py',
         'BOUNDED: real LALR parser vs table-driven reference parser on 6 '
